@@ -89,6 +89,7 @@ def gen(tier, rng, harness=None):
     # entry block and unnamed values, then an edit that shifts the numbering, then the print: the text is the one the edit gives unobserved
     lines += ["!hist.qobs %s" % e for e in ("insert-front", "remove-first", "name-first", "append", "block-front", "param-front")]
     lines += ["!md.replace %d %d" % (n, i) for n in (1, 2, 3) for i in range(n)]
+    lines.append("!md.prepend -")
     # renaming after a print / after pure queries of a constant expression (harness/ops_rename.go)
     for name in C.run_lines([harness, "run"], ["rename.list"])[0].split(","):
         for mode in "012":
